@@ -777,7 +777,7 @@ class Executor:
         if is_z3(v):
             return v
         if isinstance(v, Seq):
-            if keysort == z3.ArraySort(z3.IntSort(), z3.IntSort()) or z3.is_array_sort(keysort):
+            if isinstance(keysort, z3.ArraySortRef):
                 return v.to_symbolic().arr
         if isinstance(v, (int, Fraction, bool)):
             return V.to_z3(v, keysort == z3.RealSort())
